@@ -177,3 +177,32 @@ Section Cantilever.
     - replace (x 0%nat - x 0%nat) with 0 by ring. field; split; assumption.
   Qed.
 End Cantilever.
+
+(* C04, structure: the rows of the assembled stiffness matrix that belong to the nodes of the LEFT half of a full-span
+   beam (nodes 0 .. ne-1; node ne is the clamped centre) are, entry for entry, the rows of the half-span beam of the same
+   elements (clamped at its last node ne) - whatever lies to the right of the centre.  Hence a displacement field that
+   vanishes at the centre satisfies the left-half equilibrium equations of the full model iff its restriction satisfies
+   those of the half model: with the same loads on the modelled half, half and full models have the same displacements
+   there (uniqueness of the solution is the usual hypothesis). *)
+Section HalfFull.
+  Variables (ne nf : nat) (kh kf : nat -> nat -> nat -> R) (uh uf : nat -> R).
+  Hypothesis Hn : (ne <= nf)%nat.
+  Hypothesis Hk : forall e p q, (e < ne)%nat -> kf e p q = kh e p q.
+  Hypothesis Hu : forall q, (q < 6 * S ne)%nat -> uf q = uh q.
+
+  Lemma end_force_eq e p : (e < ne)%nat -> end_force kf uf e p = end_force kh uh e p.
+  Proof.
+    intros He. unfold end_force. apply rsum_ext; intros t Ht. rewrite Hk by exact He. rewrite Hu by lia. reflexivity.
+  Qed.
+
+  Theorem full_left_rows_are_half_rows a r : (a < ne)%nat -> (r < 6)%nat ->
+    rsum (6 * S nf) (fun q => assembled nf kf a r (q / 6) (q mod 6) * uf q)
+    = rsum (6 * S ne) (fun q => assembled ne kh a r (q / 6) (q mod 6) * uh q).
+  Proof.
+    intros Ha Hr. rewrite !assembled_row by lia.
+    replace (a <? nf)%nat with true by (symmetry; apply Nat.ltb_lt; lia).
+    replace (a <? ne)%nat with true by (symmetry; apply Nat.ltb_lt; lia).
+    rewrite (end_force_eq a r) by lia.
+    destruct (Nat.ltb_spec 0 a) as [H0|H0]; [rewrite (end_force_eq (a - 1) (6 + r)) by lia|]; reflexivity.
+  Qed.
+End HalfFull.
